@@ -141,3 +141,45 @@ Definition optf_eqb (a b : option float) : bool :=
   match a, b with Some x, Some y => feqb x y | None, None => true | _, _ => false end.
 Definition c_bound_history (dflt c0 : float) (ops : list (@bop float)) (outs : list (option float)) : N :=
   ofb (list_eqb optf_eqb (brun dflt (mkB c0 []) ops) outs).
+
+(** ** collapse alone (presolve off): list equality with the model; [rowsig] equality = the row
+    ranges of the collapsed cones cover the same rows, once, in the same order, with the same
+    meaning *)
+Definition c_collapse (cones outcones : list cone) : N :=
+  if list_eqb cone_eqb (new_collapsed cones) outcones then 0%N
+  else if list_eqb rowtag_eqb (rowsig cones) (rowsig outcones) then 2%N else 1%N.
+
+(** ** histories of the global bound with several live solvers *)
+Inductive robs : Type :=
+| RNone
+| RGet (v : float)
+| RNew (keep : option (list bool)) (b : list float) (cones : list cone)
+| RSolve (s z : list float) (b : list float)
+| RUpd (accepted : bool) (b : list float)
+| RPanic.
+Definition keep_sem_eqb (a b : option (list bool)) : bool :=
+  match a, b with
+  | Some x, Some y => blist_eqb x y
+  | None, None => true
+  | None, Some y => forallb (fun t => t) y
+  | Some x, None => forallb (fun t => t) x
+  end.
+Definition obs_ok (m : @gout float) (r : robs) : bool :=
+  match m, r with
+  | ONone, RNone => true
+  | OGet v, RGet w => feqb v w
+  | ONew k b cs, RNew k' b' cs' =>
+      keep_sem_eqb k k' && flist_eqb b b' && list_eqb rowtag_eqb (rowsig cs) (rowsig cs')
+  | OSolve keep sf zf b, RSolve s z b' =>
+      fills_ok keep s sf && fills_ok keep z zf && flist_eqb b b'
+  | OUpd a b, RUpd a' b' => Bool.eqb a a' && flist_eqb b b'
+  | _, _ => false
+  end.
+Fixpoint forall2b {X Y} (f : X -> Y -> bool) (a : list X) (b : list Y) : bool :=
+  match a, b with
+  | [], [] => true
+  | x :: a', y :: b' => f x y && forall2b f a' b'
+  | _, _ => false
+  end.
+Definition c_ghistory (dflt c0 : float) (ops : list (@gop float)) (outs : list robs) : N :=
+  ofb (forall2b obs_ok (grun OpsF dflt eps64 ten (mkG c0 []) ops) outs).
